@@ -327,6 +327,11 @@ def run(repo, chk):
     # generator): the rows of the operator typing matrix with an empty operand (shared with C07.K2)
     c07.run(repo, Remap(chk, {'C07.K4': 'C10.X3', 'C07.K5': 'C10.X3', 'C07.K2': lambda c: 'C10.X3' if 'empty' in c else None}))
     c08.run(repo, Remap(chk, {'C08.L1': 'C10.X3'}))
+    # every library overload the typechecker admits has its routine for each concrete storage class: a missing entry is an
+    # AssertionError in make_funcs, not a diagnostic (shared with the dispatch table rule C17.D1)
+    if chk.__class__.__name__ == 'Check':
+        from . import c17
+        c17.run(repo, Remap(chk, {'C17.D1': lambda c: 'C10.X2' if c.startswith(('stdlib_funcs', 'library routine', 'abstract_params')) else None}))
     n_assert = sum(1 for v in xf.own.values() for s in v if s.kind == 'assert')
     chk.sample({'assertion_sites_reachable_from_API': n_assert,
                 'note': 'generator assertions about bubbles are discharged by C08.L1; element/array typing assertions by C07.K4/K5; '
